@@ -344,6 +344,13 @@ def known_mjx_crash(c, gm=None):
   if (cone == int(mujoco.mjtCone.mjCONE_ELLIPTIC) and c.dx0._impl.nefc > 0
       and not np.any(np.asarray(c.dx0._impl.contact.dim) > 1)):
     return 'finding:elliptic-without-frictional-contact-slot-TypeError'
+  if (int(c.mm.opt.disableflags) & int(mujoco.mjtDisableBit.mjDSBL_EQUALITY)) and c.mm.neq and c.mm.nsensor:
+    # F31: smooth.rne_postconstraint slices efc_force[:3*nconnect] although the equality rows are disabled: wrong
+    # force/torque/accelerometer sensors, or TypeError when fewer rows exist
+    acc = {int(getattr(mujoco.mjtSensor, 'mjSENS_' + n)) for n in ('ACCELEROMETER', 'FORCE', 'TORQUE', 'FRAMELINACC', 'FRAMEANGACC')}
+    if (np.any(np.isin(np.asarray(c.mm.eq_type), (int(mujoco.mjtEq.mjEQ_CONNECT), int(mujoco.mjtEq.mjEQ_WELD))))
+        and np.any(np.isin(np.asarray(c.mm.sensor_type), list(acc)))):
+      return 'finding:equality-disabled-rne-postconstraint'
   if (c.dx0._impl.ncon == 0 and c.dx0._impl.nefc > 0 and c.mm.nsensor
       and np.any(np.asarray(c.mm.sensor_type) == int(mujoco.mjtSensor.mjSENS_TOUCH))):
     return 'finding:touch-sensor-without-contact-slot-ValueError'
